@@ -47,12 +47,25 @@
         ((pair? t) (cons (c14-subst (car t) x) (c14-subst (cdr t) x)))
         (else t)))
 
+(define (c14-irritant e)
+  (if (and (error-object? e) (equal? (error-object-message e) "non procedure application")
+           (pair? (error-object-irritants e)) (c14-tagged? (car (error-object-irritants e))))
+      (car (error-object-irritants e))
+      'unbound))
+
+;; pair form first: <> := (name).  name is then looked up as a plain symbol in the closure's (copied) environment;
+;; a procedure or macro answers with its tagged value, a plain value shows as the irritant of the
+;; "non procedure application" error.  Then (unless that was a call) the identifier form <> := name, where the
+;; closed form is itself an identifier (eval.c:113-118 and the delayed lookup of vm.c GLOBAL_REF).
+;; Answer: the value, or (c14-both pair-form identifier-form) when the two differ.
 (define (c14-probe1c env t n)
-  (let ((w (guard (e (#t 'unbound)) (eval (c14-subst t (list n)) env))))
-    (if (c14-tagged? w)
+  (let* ((called #t)
+         (w (guard (e (#t (set! called #f) (c14-irritant e))) (eval (c14-subst t (list n)) env))))
+    (if (and called (c14-tagged? w))
         w
         (let ((v (guard (e (#t 'unbound)) (eval (c14-subst t n) env))))
-          (if (c14-tagged? v) v 'unbound)))))
+          (let ((v (if (c14-tagged? v) v 'unbound)))
+            (if (equal? v w) v (list 'c14-both w v)))))))
 
 (define (c14-probe-closed env templates names)
   (map (lambda (t) (map (lambda (n) (c14-probe1c env t n)) names)) templates))
